@@ -105,6 +105,14 @@ func addrsAround(rng *rand.Rand, st, n int) []int {
 }
 
 func genC04(tier string, rng *rand.Rand, shard, nshards int, emit emitter) {
+	// typed access through the field definitions of a request built by hand (one Registers view shared by all fields)
+	{
+		nx := 2000
+		if tier == "thorough" {
+			nx = 40000
+		}
+		genXf(rng, "r", nx, shard, nshards, emit)
+	}
 	i := 0
 	sizes := []int{}
 	for n := 1; n <= 125; n++ {
@@ -157,6 +165,8 @@ func genC13(tier string, rng *rand.Rand, shard, nshards int, emit emitter) {
 	if tier == "thorough" {
 		nx = 60000
 	}
+	genXf(rng, "r", nx, shard, nshards, emit)
+	genXf(rng, "c", nx/2, shard, nshards, emit)
 	for i := 0; i < nx; i++ {
 		if !mine(i, shard, nshards) {
 			continue
@@ -215,5 +225,94 @@ func genC13(tier string, rng *rand.Rand, shard, nshards int, emit emitter) {
 			sp = poison(rng)
 		}
 		emit(fmt.Sprintf("regs %s %s %d %d %s", hx(d), hx(sp), st, order, strings.Join(ops, ";")))
+	}
+}
+
+// genXf emits `xf` operations: ExtractFields on hand-built requests - fields in any order, before the start address,
+// beyond the payload, overlapping, repeated, of either kind
+func genXf(rng *rand.Rand, kind string, count int, shard, nshards int, emit emitter) {
+	for i := 0; i < count; i++ {
+		if !mine(i, shard, nshards) {
+			continue
+		}
+		var payload []byte
+		span := 0 // addresses the payload covers
+		if kind == "c" {
+			nb := 1 + rng.Intn(4)
+			if rng.Intn(6) == 0 {
+				nb = 1 + rng.Intn(250)
+			}
+			payload = rbytes(rng, nb)
+			span = 8 * nb
+		} else {
+			n := 1 + rng.Intn(20)
+			if rng.Intn(6) == 0 {
+				n = 1 + rng.Intn(125)
+			}
+			payload = regPayload(rng, n)
+			span = n
+			if rng.Intn(40) == 0 {
+				payload = payload[:len(payload)-1] // odd number of bytes: no register view
+			}
+		}
+		start := rng.Intn(65536 - span)
+		switch rng.Intn(6) {
+		case 0:
+			start = 0
+		case 1:
+			start = 65536 - span
+		case 2:
+			start = rng.Intn(4)
+		}
+		nf := 1 + rng.Intn(8)
+		fs := make([]genField, 0, nf)
+		for j := 0; j < nf; j++ {
+			f := genField{name: fmt.Sprintf("f%d", j), server: "x", unit: 1}
+			if kind == "c" {
+				f.typ = 14
+				if rng.Intn(10) == 0 {
+					f.typ = 1 + rng.Intn(13)
+				}
+			} else {
+				f.typ = 1 + rng.Intn(13)
+				if rng.Intn(25) == 0 {
+					f.typ = []int{0, 14, 15, 200}[rng.Intn(4)]
+				}
+			}
+			f.bit = rng.Intn(16)
+			f.hi = rng.Intn(2)
+			f.order = orders[rng.Intn(len(orders))]
+			if f.typ == 13 {
+				f.len = strLen(rng)
+				if rng.Intn(2) == 0 {
+					f.len = 1 + rng.Intn(2*span+2)
+					if f.len > 255 {
+						f.len = 255
+					}
+				}
+			}
+			a := start + rng.Intn(span)
+			switch rng.Intn(7) {
+			case 0:
+				a = start - 1 - rng.Intn(3) // before the start address
+			case 1:
+				a = start + span + rng.Intn(3) // beyond the payload
+			case 2:
+				a = start + span - 1 - rng.Intn(4) // straddling the end
+			case 3:
+				if len(fs) > 0 {
+					a = fs[rng.Intn(len(fs))].addr
+				}
+			}
+			if a < 0 {
+				a = 0
+			}
+			if a > 65535 {
+				a = 65535
+			}
+			f.addr = a
+			fs = append(fs, f)
+		}
+		emit(fmt.Sprintf("xf %s %d %d %s %s", kind, rng.Intn(2), start, hx(payload), fieldsToken(fs)))
 	}
 }
